@@ -98,7 +98,7 @@ func genTStep(rt *rapid.T, nc int, hostile bool) TStep {
 		st.N = rapid.OneOf(rapid.IntRange(1, 64), rapid.IntRange(1, 70000)).Draw(rt, "n")
 		st.Seed = rapid.Uint64Range(0, 1<<20).Draw(rt, "seed")
 		st.Cuts = rapid.IntRange(1, 9).Draw(rt, "cuts")
-		st.Side = rapid.SampledFrom([]string{"client", "peer"}).Draw(rt, "side")
+		st.Side = rapid.SampledFrom([]string{"client", "peer", "both"}).Draw(rt, "side")
 	case "TCPClose":
 		st.K = rapid.IntRange(0, 2).Draw(rt, "k")
 		st.Side = rapid.SampledFrom([]string{"client", "peer", "peer", "client", "control"}).Draw(rt, "side")
@@ -116,6 +116,7 @@ func genTScript(rt *rapid.T, maxSteps int, hostile bool) *TScript {
 	nc := rapid.IntRange(1, 3).Draw(rt, "nclients")
 	sc.Cfg.Clients = rapid.Permutation([]int{0, 1, 2, 3}).Draw(rt, "pool")[:nc]
 	sc.Cfg.LibStatic = rapid.IntRange(0, 3).Draw(rt, "libStatic") == 0
+	sc.Cfg.PlainConns = rapid.IntRange(0, 1).Draw(rt, "plainConns") == 0
 	sc.Cfg.Deny = []int{3}
 	if rapid.IntRange(0, 4).Draw(rt, "nodeny") == 0 {
 		sc.Cfg.Deny = nil
